@@ -35,7 +35,8 @@ class ClassGroupsWrapper(KDWrapper):
         cls_group = self.cls_to_clsgroup[cls]
         idx_within_cls_group = self.idx_within_class[idx] % self.classes_per_group
         cls = cls_group * self.classes_per_group + idx_within_cls_group
-        return cls
+        # python int like every other label (numpy integers are rejected by the label encoding wrappers)
+        return int(cls)
 
     def getitem_class(self, idx, ctx=None):
         cls = self.getitem_class_before_grouping(idx, ctx=ctx)
